@@ -1524,3 +1524,149 @@ func init() {
 	add("C09", checkSingleAcquisition)
 	add("C18", func(c *report.Ctx) { checkPrecedence(c, layerKeySets(c)) })
 }
+
+// ---------------------------------------------------------------------------------------------------------------
+// Rules added after the (short) eleventh blind round.
+
+func init() {
+	add := func(id string, fs ...func(*report.Ctx)) { round5Rules[id] = append(round5Rules[id], fs...) }
+	add("C09", checkRegisterAfterValidation, checkTerminateFailureStillKills)
+	add("C13", checkRegisterAfterValidation)
+	add("C05", checkTerminateFailureStillKills)
+}
+
+// checkRegisterAfterValidation (C13, C09): an external extension moves to Registered (and is subscribed to the events it
+// named) only after every event passed validation; a refused registration leaves it in Started. The transition call
+// never precedes a validation call.
+func checkRegisterAfterValidation(c *report.Ctx) {
+	f := fn(c, "L/rapi/handler", "(*agentRegisterHandler).registerExternalAgent")
+	if f == nil {
+		return
+	}
+	ord := an.NewOrder(f, func(in ssa.Instruction) uint64 {
+		if an.IsCallTo(in, "L/core.ExternalAgent.Register") {
+			return 1
+		}
+		return 0
+	})
+	n, ok := 0, true
+	pos := fpos(f)
+	for _, v := range an.CallsTo(f, "L/core.ValidateExternalAgentEvent") {
+		n++
+		if _, may := ord.Before(v); may&1 != 0 {
+			ok = false
+			pos = an.InstrPos(v)
+		}
+	}
+	nreg := len(an.CallsTo(f, "L/core.ExternalAgent.Register"))
+	c.Check("R-ORDER", an.FuncName(f)+"/register-only-after-validation", "the extension's Register transition is made after its events were validated, never before (a registration refused for an invalid event leaves the extension unregistered)", ok && n >= 1 && nreg == 1, pos, n, "validation sites: %d; Register may precede one of them: %v; Register sites: %d", n, !ok, nreg)
+}
+
+// checkTerminateFailureStillKills (C09, C05): a SIGTERM that could not be delivered does not end the runtime's
+// teardown: the wait and the SIGKILL at the deadline follow on every path. No return stands on the error edge of
+// the Terminate request.
+func checkTerminateFailureStillKills(c *report.Ctx) {
+	f := fn(c, "L/rapid", "(*shutdownContext).shutdownRuntime")
+	if f == nil {
+		return
+	}
+	facts := an.NewFacts(f)
+	isTermErr := func(v ssa.Value) bool {
+		return an.IsResultOf(v, "L/supervisor/model.ProcessSupervisor.Terminate", -1)
+	}
+	n, ok := len(an.CallsTo(f, "L/supervisor/model.ProcessSupervisor.Terminate")), true
+	pos := fpos(f)
+	for _, e := range an.Exits(f) {
+		if facts.Holds(e.Ret.Block(), func(ft an.Fact) bool { return an.CmpNil(ft, false, isTermErr) }) {
+			ok = false
+			pos = an.InstrPos(e.Ret)
+		}
+	}
+	c.Check("R-GUARD", an.FuncName(f)+"/terminate-failure-does-not-end-the-teardown", "no return stands on the error edge of the Terminate request: a runtime that could not be signalled is still waited for and killed at its deadline", ok && n == 1, pos, n, "Terminate sites: %d; a return under 'Terminate failed': %v", n, !ok)
+}
+
+func init() {
+	add := func(id string, fs ...func(*report.Ctx)) { round5Rules[id] = append(round5Rules[id], fs...) }
+	add("C17", checkPayloadLimitTakenForAnyValue)
+}
+
+// checkPayloadLimitTakenForAnyValue (C17): the per-request MaxPayloadSize replaces the default for EVERY value from
+// -1 upwards - 0 included (a limit of zero cuts a non-empty response to its first byte and labels it Oversized).
+// Where the header's number is stored into MaxDirectResponseSize, the only thing known about that number is that it
+// is not below -1.
+func checkPayloadLimitTakenForAnyValue(c *report.Ctx) {
+	f := fn(c, "L/core/directinvoke", "ReceiveDirectInvoke")
+	if f == nil {
+		return
+	}
+	facts := an.NewFacts(f)
+	n := 0
+	var bad []string
+	pos := fpos(f)
+	for _, st := range an.GlobalStores(f, "L/core/directinvoke.MaxDirectResponseSize") {
+		if _, isConst := st.Val.(*ssa.Const); isConst {
+			continue // the default
+		}
+		if cv, isConv := st.Val.(*ssa.Convert); isConv {
+			if _, isConst := cv.X.(*ssa.Const); isConst {
+				continue
+			}
+		}
+		n++
+		v := st.Val
+		for _, ft := range facts.At(st.Block()) {
+			r, ok := an.AsRel(ft)
+			if !ok {
+				continue
+			}
+			for _, rr := range []an.Rel{r, r.Flip()} {
+				if rr.X != v {
+					continue
+				}
+				k, isC := an.ConstInt(rr.Y)
+				if !isC || (k != -1 && k != -2) {
+					bad = append(bad, sprintf("%s %s %s", an.Path(rr.X), rr.Op, an.Path(rr.Y)))
+					pos = st.Pos()
+				}
+			}
+		}
+	}
+	c.Check("R-GUARD", an.FuncName(f)+"/payload-limit-taken-for-any-value", "the header's MaxPayloadSize is taken over for every value >= -1 (zero is a limit like any other): nothing else is tested about the number before it is stored", len(bad) == 0 && n == 1, pos, n, "override stores: %d; other tests of the stored number: %v", n, uniq(bad))
+}
+
+func init() {
+	add := func(id string, fs ...func(*report.Ctx)) { round5Rules[id] = append(round5Rules[id], fs...) }
+	add("C13", checkIdentifierPresenceNotValue)
+}
+
+// checkIdentifierPresenceNotValue (C13): whether a request carries an extension identifier is what the middleware's
+// context entry says (present or not), never a property of the identifier's VALUE: the all-zero UUID is a well-formed
+// identifier that names nobody (403 UnknownExtensionIdentifier), not "no identifier" (500). No handler compares an
+// identifier with uuid.Nil.
+func checkIdentifierPresenceNotValue(c *report.Ctx) {
+	n := 0
+	var who []string
+	all := append([]*ssa.Function(nil), repoFuncs(c)...)
+	for g := range c.P.Absorbed {
+		all = append(all, g)
+	}
+	sort.Slice(all, func(i, j int) bool { return all[i].String() < all[j].String() })
+	for _, f := range all {
+		top := f
+		for top.Parent() != nil {
+			top = top.Parent()
+		}
+		if top.Pkg == nil || load.Abbrev(top.Pkg.Pkg.Path()) != "L/rapi/handler" {
+			continue
+		}
+		n++
+		an.AllInstrs(f, func(in ssa.Instruction) {
+			if u, ok := in.(*ssa.UnOp); ok && u.Op == token.MUL {
+				if g, isG := u.X.(*ssa.Global); isG && g.Pkg != nil && g.Pkg.Pkg.Path() == "github.com/google/uuid" && g.Name() == "Nil" {
+					who = append(who, an.FuncName(f))
+				}
+			}
+		})
+	}
+	c.Check("R-WHO", "L/rapi/handler/no-nil-uuid-sentinel", "no handler uses the all-zero UUID as a sentinel for 'no identifier' (presence comes from the context entry; a zero identifier is merely unknown)", len(who) == 0 && n >= 20, token.NoPos, n, "handler functions: %d; reading uuid.Nil: %v", n, uniq(who))
+}
